@@ -255,6 +255,103 @@ def prop_history(case, stats):
                 raise Violation('%s changed the value that had been returned earlier by %s' % (what, hw))
 
 
+def prop_history2(case, stats):
+    """two inputs; forward evaluations may hand over one of them as a plain array (a constant) and the other as a Taylor
+    polynomial, and change that from one evaluation to the next; reverse sweeps are compared with a graph without history"""
+    cg, fins, regs = guard(_record, case, _mk_input(case, case['rec']))
+    last = None
+    for n, stp in enumerate(case['history']):
+        what = 'step %d (%s)' % (n, stp['step'])
+        if stp['step'] == 'forward':
+            xin = _mk_input(case, stp['spec'])
+            try:
+                ref = PG.run(case['prog'], _mk_input(case, stp['spec']))[case['out']]
+            except NotImplementedError as e:
+                raise Rejected(str(e))
+            guard(cg.pushforward, xin)
+            got = cg.dependentFunctionList[0].x
+            if isinstance(ref, UTPM) != isinstance(got, UTPM):
+                raise Violation('%s: result kind %s, direct execution %s' % (what, type(got).__name__, type(ref).__name__))
+            _close(got.data if isinstance(got, UTPM) else got, ref.data if isinstance(ref, UTPM) else ref, what, stats)
+            last = stp['spec'] if isinstance(got, UTPM) else None
+        else:
+            if last is None:
+                raise Inconclusive('history invalid: reverse without a Taylor polynomial result')
+            y = cg.dependentFunctionList[0].x
+            if y.data.shape != stp['ybar'].shape:
+                raise Inconclusive('seed shape')
+            # the same sweep on a graph without history first: if IT refuses (an operation without support for a plain operand),
+            # the call is outside what the library does at all, with or without history
+            cg2, fins2, _ = guard(_record, case, _mk_input(case, last))
+            try:
+                cg2.pullback([UTPM(stp['ybar'].copy())])
+            except Exception as e:
+                stats.event('mixed-reverse-refused-without-history')
+                raise Rejected('reverse sweep with a plain input refused also without history: %s' % str(e)[-120:])
+            guard(cg.pullback, [UTPM(stp['ybar'].copy())])
+            for i, (f, f2) in enumerate(zip(fins, fins2)):
+                if isinstance(f2.x, UTPM):
+                    if not isinstance(f.xbar, UTPM):
+                        raise Violation('%s: no adjoint for input %d, which was a Taylor polynomial in the last evaluation' % (what, i))
+                    _close(f.xbar.data, f2.xbar.data, what + ' adjoint of input %d' % i, stats)
+        if Function.cgraph is not None:
+            raise Violation('%s left Function.cgraph set' % what)
+
+
+@st.composite
+def history2_cases(draw, tier):
+    K = 4
+    allow_bcast = not KF.is_open('KF-setitem-broadcast-reverse')
+    # (no buffers: zeros(shape, dtype=<plain input>) is a plain array into which no polynomial can be stored - the direct program
+    #  itself would be invalid for a mixed evaluation)
+    fams = [f for f in PG.FAMILIES_ALL if f not in ('buf', 'set', 'rmw')]
+    pr = draw(PG.programs(n_inputs=(2, 2), max_len=6, min_len=2, out='any', K=K, allow_set_broadcast=allow_bcast, allow_ones=False, families=fams))
+    case = dict(pr)
+    case['kind'] = 'two-inputs'
+    rec = draw(eval_spec(pr['pts'], K, Dmax=2))
+    rec['idx'] = [0] * len(rec['idx'])
+    case['rec'] = rec
+    dense = gen.nice_floats(-1.0, 1.0)
+    hist = []
+    last = None
+    L = draw(st.integers(3, 7))
+    while len(hist) < L:
+        k = draw(st.sampled_from(['forward', 'forward', 'reverse', 'reverse'] if last is not None else ['forward']))
+        if k == 'forward':
+            like = None
+            prevf = [h for h in hist if h['step'] == 'forward']
+            if prevf and draw(st.booleans()):
+                like = prevf[-1]['spec']          # same D, P: only which input is plain changes
+            spec = draw(eval_spec(pr['pts'], K, kinds=('utpm',), Dmax=3, like=like))
+            spec['plain'] = draw(st.sampled_from([[False, False], [True, False], [False, True], [False, False]]))
+            hist.append({'step': 'forward', 'spec': spec})
+            D, P = spec['D'], len(spec['idx'])
+            # shape of the output under this evaluation (a program whose output depends on a plain input only gives a plain result)
+            try:
+                y = PG.run(pr['prog'], _mk_input(case, spec))[pr['out']]
+            except Exception:
+                y = None
+            last = (D, P, np.shape(y.data)[2:]) if isinstance(y, UTPM) else None
+        else:
+            D, P, oshape = last
+            hist.append({'step': 'reverse', 'ybar': draw(gen.float_array((D, P) + tuple(oshape), dense, sparse=False))})
+    case['history'] = hist
+    return case
+
+
+def _h2_classes(case):
+    c = ['kind=two-inputs', 'steps=%d' % len(case['history'])]
+    plains = [tuple(s_['spec']['plain']) for s_ in case['history'] if s_['step'] == 'forward']
+    if len(set(plains)) >= 2:
+        c.append('plain/polynomial role of an input changes between evaluations')
+    if any(any(p) for p in plains):
+        c.append('mixed plain and polynomial inputs')
+    h = [s_['step'] for s_ in case['history']]
+    if 'reverse' in h:
+        c.append('with-reverse')
+    return c + PG.features(case)
+
+
 @st.composite
 def history_cases(draw, tier, outkind, first=None, families=None, driver_heavy=False):
     K = 4
@@ -400,4 +497,8 @@ def buckets(tier):
                          (lambda kind=kind: history_cases(tier, kind, first='vec2lin', families=['un', 'bin', 'binc', 'get'], driver_heavy=True)),
                          prop_history, {'quick': 100, 'thorough': 400}, nontrivial=_nontrivial, classes=_classes,
                          shards={'quick': 4, 'thorough': 6}, weight=12.0))
+    bl.append(Bucket('history-two-inputs', (lambda: history2_cases(tier)), prop_history2, {'quick': 200, 'thorough': 1500},
+                     nontrivial=(lambda case: len(set(tuple(s_['spec']['plain']) for s_ in case['history'] if s_['step'] == 'forward')) >= 2
+                                 and any(s_['step'] == 'reverse' for s_ in case['history'])),
+                     classes=_h2_classes, shards={'quick': 4, 'thorough': 8}, weight=8.0))
     return bl
